@@ -7,6 +7,11 @@ pub open spec fn opt_min(a: Option<Duration>, b: Option<Duration>) -> Option<Dur
         (None, None) => None,
     }
 }
+/// relative to the clock value `now`: every entry that is due has left the heap, nothing else has
+pub open spec fn due_exactly_popped(before: Multiset<TimeoutData>, after: Multiset<TimeoutData>, now: Instant) -> bool {
+    &&& forall|y: TimeoutData| #[trigger] after.count(y) > 0 ==> y.ns() > nanos(now)
+    &&& forall|y: TimeoutData| #[trigger] after.count(y) < before.count(y) ==> y.ns() <= nanos(now)
+}
 //@ endregion
 
 //@ slice src/sys.rs / impl Poll / fn poll :: stmts <<timeout = match (timeout, next_timeout)>> .. <<timeout = match (timeout, next_timeout)>> props=C12 name=Poll::poll::timeout_clamp
@@ -26,34 +31,41 @@ fn poll_timeout_clamp(mut timeout: Option<Duration>, next_timeout: Option<Durati
     timeout
 //@ endslice
 
-//@ slice src/sys.rs / impl Poll / fn poll :: stmts <<while let Some((_, token)) = timers.next_expired(now)>> .. <<while let Some((_, token)) = timers.next_expired(now)>> props=C02,C05 name=Poll::poll::expired_timers_loop
+//@ slice src/sys.rs / impl Poll / fn poll :: after <<drop(events);>> props=C02,C05 name=Poll::poll::expired_timers_loop
+//@ rw R10 * <<self.timers.borrow_mut()>> => <<timers_cell>>
 //@ sig
-/// S1 slice of Poll::poll: the loop that appends one event per expired timer. Free variables become parameters:
-/// `timers` (in the real code a RefMut<TimerWheel> obtained from self.timers.borrow_mut(); here the &mut
-/// TimerWheel it dereferences to), `now`, `poll_events`. Dropped: everything else in Poll::poll.
-fn poll_expired_timers_loop(timers: &mut TimerWheel, now: Instant, poll_events: &mut Vec<PollEvent>)
+/// S1 slice of Poll::poll: everything after `drop(events);` up to the end of the function -- the clock read, the loop
+/// that appends one event per expired timer, and the returned batch. Free variable `poll_events` (the converted fd
+/// events collected so far) becomes a parameter; rule R10: the borrow of the shared timer-wheel cell becomes
+/// `timers_cell`. Dropped: everything before (timeout clamp: see the other slice; the wait; the fd-event conversion).
+fn poll_expired_timers_loop(timers_cell: &mut TimerWheel, mut poll_events: Vec<PollEvent>) -> (r: crate::Result<Vec<PollEvent>>)
 //@ spec
     ensures
-        // nothing that is still in the heap is due, nothing was added to the heap
-        forall|y: TimeoutData| final(timers)@.count(y) > 0 ==> y.ns() > nanos(now),
-        forall|y: TimeoutData| final(timers)@.count(y) <= old(timers)@.count(y),
-        // never early: every entry that left the heap was due
-        forall|y: TimeoutData| final(timers)@.count(y) < old(timers)@.count(y) ==> y.ns() <= nanos(now),
-        // one event per entry that left the heap, appended after the fd events, nothing else touched
-        final(poll_events)@.len() == old(poll_events)@.len() + (old(timers)@.len() - final(timers)@.len()),
-        forall|i: int| 0 <= i < old(poll_events)@.len() ==> final(poll_events)@[i] == old(poll_events)@[i],
-        forall|i: int| old(poll_events)@.len() <= i < final(poll_events)@.len() ==>
-            (#[trigger] final(poll_events)@[i]).readiness.readable && !final(poll_events)@[i].readiness.writable && !final(poll_events)@[i].readiness.error,
+        // this part of poll cannot fail
+        r is Ok,
+        // C02: EVERY timer that is due at the clock read is popped -- whether or not fd events were collected --,
+        // nothing that is not due is popped (never early), nothing is added to the heap
+        exists|now: Instant| #[trigger] due_exactly_popped(old(timers_cell)@, final(timers_cell)@, now),
+        forall|y: TimeoutData| #[trigger] final(timers_cell)@.count(y) <= old(timers_cell)@.count(y),
+        // one event per popped entry, appended AFTER the fd events, which are all kept in order
+        r->Ok_0@.len() == poll_events@.len() + (old(timers_cell)@.len() - final(timers_cell)@.len()),
+        forall|i: int| 0 <= i < poll_events@.len() ==> r->Ok_0@[i] == poll_events@[i],
+        forall|i: int| poll_events@.len() <= i < r->Ok_0@.len() ==>
+            (#[trigger] r->Ok_0@[i]).readiness.readable && !r->Ok_0@[i].readiness.writable && !r->Ok_0@[i].readiness.error,
+//@ entry
+    let ghost fd_events = poll_events@;
+    let ghost timers0 = timers_cell@;
 //@ loop 1
         invariant
-            forall|y: TimeoutData| timers@.count(y) <= old(timers)@.count(y),
-            forall|y: TimeoutData| timers@.count(y) < old(timers)@.count(y) ==> y.ns() <= nanos(now),
-            poll_events@.len() == old(poll_events)@.len() + (old(timers)@.len() - timers@.len()),
-            timers@.len() <= old(timers)@.len(),
-            forall|i: int| 0 <= i < old(poll_events)@.len() ==> poll_events@[i] == old(poll_events)@[i],
-            forall|i: int| old(poll_events)@.len() <= i < poll_events@.len() ==>
+            forall|y: TimeoutData| #[trigger] timers@.count(y) <= timers0.count(y),
+            forall|y: TimeoutData| #[trigger] timers@.count(y) < timers0.count(y) ==> y.ns() <= nanos(now),
+            poll_events@.len() == fd_events.len() + (timers0.len() - timers@.len()),
+            timers@.len() <= timers0.len(),
+            forall|i: int| 0 <= i < fd_events.len() ==> poll_events@[i] == fd_events[i],
+            forall|i: int| fd_events.len() <= i < poll_events@.len() ==>
                 (#[trigger] poll_events@[i]).readiness.readable && !poll_events@[i].readiness.writable && !poll_events@[i].readiness.error,
         ensures
-            forall|y: TimeoutData| timers@.count(y) > 0 ==> y.ns() > nanos(now),
+            // (also the witness term for the existential in the postcondition)
+            due_exactly_popped(timers0, timers@, now),
         decreases timers@.len(),
 //@ endslice
